@@ -72,10 +72,10 @@ CHECKS.update({
 CHECKS.update({
  'C04': ('exploration', '4/C04', 'seeded multi-session histories with an observer taking STATUS + token dumps after every step; UID book-keeping per (MAILBOXID, UIDVALIDITY)',
          'Seeded histories of APPEND/COPY/MOVE/EXPUNGE/RENAME/DELETE+CREATE by 1-3 sessions over three mailboxes (expunge-highest-then-add, concurrent appenders) run in the simulator; after every step an observer records STATUS and a dump with message tokens of every mailbox, and a ledger keyed by mailbox identity and UIDVALIDITY checks strict increase, non-reuse over the whole history, UIDNEXT bounds in both directions, and APPENDUID/COPYUID count, order and token pairing.',
-         'Trusted: MAILBOXID as identity; the crash/restart part of the quantifier (maildir) is decided by C15.'),
+         'Trusted: MAILBOXID as identity. On maildir: deliveries by a delivery agent, another process holding the UID-list lock, STATUS/SELECT answered inside a step judged against the messages they count; 12% of the cases are crash-image histories (the C15 engine) judged for UIDs after the restart.'),
  'C14': ('fault_enumeration', '4/C14', 'per base case: one fault-free run to count scheduler moves, then one deterministic re-run per fault kind x position (exhaustive per case); token-conservation oracle on probe dumps',
          'For each seeded base case (MOVE / COPY / multi-message APPEND / EXPUNGE, optionally with a second session acting in the same step, every lock and drain a real suspension point) the target step is executed fault-free to count its scheduler moves N, then the identical case is re-executed once for every fault kind (task cancellation, connection reset, client EOF) at every position 0..N. Probe dumps before and after decide: no token lost, APPEND all-or-nothing, completed MOVE in exactly one mailbox, NO/BAD changes nothing.',
-         'Determinism is what makes "position k of the same execution" meaningful. On the dict backend the interesting windows exist only under lock_yield; storage-call failures and process kill are maildir-only and live in C15.'),
+         'Determinism is what makes "position k of the same execution" meaningful. On the dict backend the interesting windows exist only under lock_yield; on maildir every storage call of the target step that needs disk space fails once with ENOSPC (exhaustive per case); process kill lives in C15.'),
 })
 CHECKS.update({
  'C08': ('exploration', '4/C08', 'seeded hostile mailbox names against the maildir backend (both layouts) under a file-system interposer; path-confinement monitor + before/after tree hashes',
